@@ -15,6 +15,7 @@ import LbfgsbVerif.Model.FD
 import LbfgsbVerif.Model.Dcsrch
 import LbfgsbVerif.Model.Utils
 import LbfgsbVerif.Model.Bounds
+import LbfgsbVerif.Model.Kernels
 import Std.Data.HashMap
 
 open Lbfgsb
@@ -384,6 +385,38 @@ def handleShell (c : Ctx) (toks : List String) : Option (Ctx × List String) :=
     | .ok (sf', stp?, olog) =>
       let r := match stp? with | none => "none" | some s => showF s
       some (c, [s!"ls {r} {sf'.nfev} {sf'.ngev}", s!"log {showLog sf'.log}"] ++ olog.map showOReq ++ ["end"])
+  | ["solve", name, x0, lb, ub, maxcor, maxiter, maxfun, maxls, ftol, gtol, jac] => do
+    -- the complete model (driver + composed kernel models + DCSRCH model) run natively on a benchmark function
+    -- of the package (Float twins generated from benchmarks.py)
+    let x0 ← parseV x0; let lb ← parseV lb; let ub ← parseV ub
+    let maxcor ← maxcor.toNat?; let maxiter ← maxiter.toNat?; let maxfun ← maxfun.toNat?; let maxls ← maxls.toNat?
+    let ftol ← parseF ftol; let gtol ← parseF gtol
+    let f ← Lbfgsb.Generated.BenchF.table.lookup name
+    let g ← Lbfgsb.Generated.BenchF.table.lookup (name ++ "_grad")
+    let call (h : Nat → (Nat → Float) → List Float) (x : Vec Float) : List Float :=
+      let arr := x.toArray; h arr.size (fun i => arr[i]!)
+    -- gradient mode: callable, or the model of the differencing (Model/FD.lean) with SciPy's step rules
+    let epsM2 : Float := 1.4901161193847656e-08   -- sqrt(eps)
+    let epsM3 : Float := 6.055454452393343e-06    -- eps^(1/3)
+    let fd : Option (FD.Scheme × (Float → Float)) :=
+      if jac == "2-point" then some (.two, fun xi => FD.stepRel xi none epsM2)
+      else if jac == "3-point" then some (.three, fun xi => FD.stepRel xi none epsM3)
+      else if jac == "none" then some (.two, fun xi => FD.step0 xi 1e-8 epsM2)
+      else none
+    let user : User Float String :=
+      { F := fun x => .ok ((call f x).getD 0 nan), Gr := fun x => .ok (call g x),
+        fdPts := fun x _ => match fd with | some (sch, hOf) => FD.points sch hOf x lb ub | none => [],
+        fdComb := fun x f0 vals => match fd with | some (sch, hOf) => FD.grad sch hOf x lb ub f0 vals | none => x,
+        callback := fun _ => .ok false, update := fun i => .ok ⟨i.f0, i.f0Old, i.grad, i.G⟩,
+        scaler := fun _ _ => .ok 1.0, ftargetFn := fun _ => .ok 0.0, gtolFn := fun _ => .ok 0.0 }
+    let cfg : Cfg Float :=
+      { x0, lb, ub, mode := (if fd.isSome then .fd else .callable), maxcor, maxiter, maxfun, maxls, ftol, gtol := .const gtol, ftarget := none,
+        maxStep := 1e8, ftolLS := 1e-3, gtolLS := 0.9, xtolLS := 0.1, epsSY := 2.2e-16, hasCallback := true,
+        hasUpdate := false, hasScaler := false, checkpoint := none }
+    match minimize user (concreteOracles lb ub 1e-30) cfg with
+    | .error e => some (c, [s!"solve err {e}"])
+    | .ok (r, st) =>
+      some (c, [s!"solve {showRes r}"] ++ st.cbStates.map (fun cb => s!"it {showV cb.x} {showF cb.f}") ++ ["end"])
   | ["bench", name, x] => do
     let x ← parseV x
     let arr := x.toArray
